@@ -192,18 +192,19 @@ def one_case(ctx, rng, wd, which, inclusive=False):
         ppp = np.ones(d, dtype=int)
         frames = 1
     else:
-        snaps, inf, cell = gc.static_system(rng, d=d, K=K, frames=frames, nmin=max(3, K + 1), nmax=50 if not ctx.thorough else 90)
+        snaps, inf, cell = gc.static_system(rng, d=d, K=K, frames=frames, nmin=max(3, K + 1), nmax=50 if not ctx.thorough else 90, vary_tilt=True)
         ppp = gc.random_mask(rng, d)
         types = snaps.snapshots[0].particle_type
     n = inf["N"]
     H = cell["H"]
-    ragree = np.inf if geom.is_orthogonal(H) else geom.agreement_radius(H, ppp)
-    tables = [geom.pair_table(s.positions, H, ppp)[1] for s in snaps.snapshots]
+    Hs = [s.hmatrix for s in snaps.snapshots]         # a sheared trajectory has an own cell matrix per frame
+    ragree = np.inf if geom.is_orthogonal(H) else min(geom.agreement_radius(Hf, ppp) for Hf in Hs)
+    tables = [geom.pair_table(s.positions, Hf, ppp)[1] for s, Hf in zip(snaps.snapshots, Hs)]
     dmin = min(float(np.min(t + np.eye(n) * 1e9)) for t in tables)
     if dmin < 1e-6:
         return
     fn = os.path.join(wd, "nl.dat")
-    info0 = {"d": d, "N": n, "cell": inf["cell"], "pos": inf["pos"], "frames": frames, "ppp": ppp, "H": H, "types": types,
+    info0 = {"d": d, "N": n, "cell": inf["cell"], "pos": inf["pos"], "frames": frames, "ppp": ppp, "H": Hs if not inclusive else H, "types": types,
              "positions": [s.positions for s in snaps.snapshots] if n <= 30 else "omitted(N>30)"}
     nparts = [n] * frames
     if which == "nnearest":
